@@ -1087,3 +1087,73 @@ pub fn run_hostile(ctx: &Ctx) {
     }
     out.finish(&ctx.out_dir, "sighostile", &[]);
 }
+
+// =================================================================================================
+// sequences of transmissions at signal level (C05, C08, C04 through the real receiver glue)
+
+/// Suite `sigseq`: 1..3 transmissions (header A, header B, trailer) with presence masks, following each
+/// other 1 s .. 11.5 s apart, ending in silence.
+pub fn run_seq(ctx: &Ctx) {
+    let mut out = Out::create(&ctx.out_dir, "sigseq");
+    let mut rng = Rng::new(ctx.seed ^ 0x5E9);
+    let n = if ctx.tier_thorough { 1200 } else { 48 };
+    for i in 0..n {
+        let rate = if ctx.tier_thorough { pick_rate(&mut rng, i).min(48000) } else { *rng.pick(&[11025u32, 22050]) };
+        let mut lg = gen_line(&mut rng, rate);
+        lg.line.noise_rel = 0.0;
+        lg.line.baud_err = 0.0;
+        let a_hdr = gen_header_any(&mut rng).text().into_bytes();
+        let mut b_hdr = gen_header_any(&mut rng).text().into_bytes();
+        if b_hdr == a_hdr {
+            b_hdr[6] ^= 1;
+        }
+        let ntx = 1 + i % 3;
+        let mut a = Audio::new(lg.line.clone());
+        a.silence(0.4, &mut rng);
+        let mut txs: Vec<String> = vec![];
+        let mut spans: Vec<String> = vec![];
+        let mut label = format!("sigseq.rate{}", rate);
+        for t in 0..ntx {
+            let kind = if t == 0 { rng.below(2) } else { rng.below(3) }; // 0 = A, 1 = B, 2 = trailer
+            let payload: Vec<u8> = match kind {
+                0 => a_hdr.clone(),
+                1 => b_hdr.clone(),
+                _ => b"NNNN".to_vec(),
+            };
+            let mask = *rng.pick(&[7u8, 7, 7, 6, 5, 3]);
+            label.push_str(&format!(".{}m{:03b}", ["A", "B", "E"][kind as usize], mask));
+            txs.push(hex(&payload));
+            for k in 0..3 {
+                if mask & (4 >> k) != 0 {
+                    a.burst(16, &payload, &mut rng);
+                    let b = a.bursts.last().unwrap();
+                    spans.push(format!("{}:{}-{}", t, b.0, b.1));
+                } else {
+                    a.silence(8.0 * (16 + payload.len()) as f64 / BAUD, &mut rng);
+                }
+                if k < 2 {
+                    a.silence(lg.pause, &mut rng);
+                }
+            }
+            if t + 1 < ntx {
+                let gap = *rng.pick(&[1.0f64, 1.0, 1.3, 2.0, 5.0, 11.5]);
+                label.push_str(&format!(".gap{:.1}", gap));
+                a.silence(gap, &mut rng);
+            }
+        }
+        a.silence(3.0, &mut rng);
+        let mut r = build(Cfg::Samedec, rate);
+        let (evs, taps) = run_tapped(&mut r, &a.samples);
+        let (op, imp) = link_op(&taps);
+        out.op(&op, &imp, true);
+        let (op, imp) = rx_op(rate, &taps, &evs);
+        out.op(&op, &imp, true);
+        let evline = show_events(&evs);
+        out.spec(&format!("spec.sig c08seq {};{};{} [{}] => {}", rate, txs.join(","), spans.join(","), label, evline));
+        out.spec(&format!("spec.sig c05seq {} [{}] => {}", txs.join(","), label, evline));
+        out.spec(&format!("spec.sig c04 {} [{}] => {}", rate, label, evline));
+        out.spec(&format!("spec.sig c13life - [{}] => {}", label, evline));
+        out.count(&format!("ntx:{}", ntx));
+    }
+    out.finish(&ctx.out_dir, "sigseq", &[]);
+}
